@@ -130,6 +130,17 @@ class Run:
                 lst.append(tup)
                 self.barmap[(pname, T(t))] = tup[1:]
             self.bars_by_pair[pname] = lst
+        # an optional second feed of the same pair (e.g. 2 h bars next to 1 h bars): its bars share their closing time with
+        # bars of the first feed and are matched right after them
+        self.barmap2: Dict[Tuple[str, datetime.datetime], Tuple[D, D, D, D, D]] = {}
+        self.bars2_by_pair: Dict[str, List[Tuple[datetime.datetime, D, D, D, D, D, int]]] = {}
+        for pname, blist in (sc.get("bars2") or {}).items():
+            lst2 = []
+            for (t, o, h, low, c, v, span) in blist:
+                tup = (T(t), D(o), D(h), D(low), D(c), D(v), span)
+                lst2.append(tup)
+                self.barmap2[(pname, T(t))] = tup[1:6]
+            self.bars2_by_pair[pname] = lst2
         self.fee = (D(sc["fee"]["pct"]), D(sc["fee"]["min"])) if sc.get("fee") else None
         self.liq = (D(sc["liq"]["limit"]), D(sc["liq"]["impact"])) if sc.get("liq") else None
         self.lend = sc.get("lend")
@@ -230,6 +241,12 @@ class Run:
             for (when, o, h, low, c, vol) in lst:
                 src.push(bar.BarEvent(when, bar.Bar(when - dur, p, o, h, low, c, vol)))
             self.e.add_bar_source(src)
+        for pname, lst2 in self.bars2_by_pair.items():
+            src2 = event.FifoQueueEventSource()
+            for (when, o, h, low, c, vol, span) in lst2:
+                src2.push(bar.BarEvent(when, bar.Bar(when - datetime.timedelta(hours=span), self.pairs[pname], o, h, low, c, vol)))
+            self.e.add_bar_source(src2)
+            self.stats["second_feeds"] += 1
         for pname in self.bars_by_pair:
             self.e.subscribe_to_bar_events(self.pairs[pname], self._mk_strategy(pname))
         self.polling = bool(sc.get("no_order_events"))
@@ -903,12 +920,30 @@ class Run:
 
     # ---- per-fill checks: C03-lite, C04, C08 ------------------------------------------------
     def check_fill(self, oid, m, when, db: D, dq: D, df: D, oi) -> None:
+        second = self.barmap2.get((m["pair"], when))
+        if second is None:
+            return self._check_fill(oid, m, when, db, dq, df, oi, None)
+        # two bars of the pair close at this instant: the fill belongs to one of them
+        saved = (len(self.viol), collections.Counter(self._viol_count), collections.Counter(self.stats))
+        self._check_fill(oid, m, when, db, dq, df, oi, None)
+        if len(self.viol) > saved[0] or any(self.stats[k] != saved[2][k] for k in self.stats if k.startswith("viol_")):
+            first_try = (self.viol[saved[0]:], collections.Counter(self._viol_count), collections.Counter(self.stats))
+            del self.viol[saved[0]:]
+            self._viol_count, self.stats = collections.Counter(saved[1]), collections.Counter(saved[2])
+            self._check_fill(oid, m, when, db, dq, df, oi, second)
+            if len(self.viol) > saved[0]:
+                # neither bar explains the fill: report what the first one said
+                del self.viol[saved[0]:]
+                self.viol.extend(first_try[0])
+                self._viol_count, self.stats = first_try[1], first_try[2]
+
+    def _check_fill(self, oid, m, when, db: D, dq: D, df: D, oi, bar_override) -> None:
         pname = m["pair"]
         bp, qp = self.pair_prec(pname)
         tol = unit(qp) / 2
         kind = m["kind"]
         buy = m["side"] == "buy"
-        bar = self.barmap.get((pname, when))
+        bar = bar_override if bar_override is not None else self.barmap.get((pname, when))
         self.stats["fill_checks"] += 1
         if m["t"] is not None and when <= m["t"]:
             self.v("C03", "fill_not_after_submission", f"{kind} order submitted at {m['t']} filled at {when}")
@@ -933,7 +968,8 @@ class Run:
                 self.v("C04", "limit_not_reached_by_bar", tag)
         if m["stop"] is not None:
             reached = False
-            for (bw, bo, bh, bl, bc, bv) in self.bars_by_pair[pname]:
+            history = list(self.bars_by_pair[pname]) + [b2[:6] for b2 in self.bars2_by_pair.get(pname, [])]
+            for (bw, bo, bh, bl, bc, bv) in sorted(history, key=lambda x: x[0]):
                 if m["t"] is not None and bw <= m["t"]:
                     continue
                 if bw > when:
@@ -1108,6 +1144,8 @@ class Run:
                     else:
                         break
                 self.stats["price_checks"] += 1
+                if pname in self.bars2_by_pair:
+                    continue        # two feeds: either feed's last close may be the current one (same closes by construction)
                 if le is not None and px not in (le, lt):
                     for prop in ("C10", "C06"):
                         self.v(prop, "price_is_not_the_last_close",
@@ -1440,6 +1478,10 @@ class Run:
             bp, qp = self.pair_prec(pname)
             orders = [i for i in self.order_seq if self.meta[i]["pair"] == pname]
             for (when, o_, h, low, c, vol) in lst:
+                b2 = self.barmap2.get((pname, when))
+                if b2 is not None:
+                    # a second bar of the pair closes at the same instant: together they reach whatever either reaches
+                    h, low = max(h, b2[1]), min(low, b2[2])
                 live = [i for i in orders if self.meta[i]["t"] is not None and self.meta[i]["t"] < when
                         and (i not in close_when or close_when[i] >= when)]
                 f = fills.get((pname, when), {})
@@ -1512,7 +1554,9 @@ class Run:
                         elif m["kind"] == "limit":
                             must = (low <= m["limit"]) if buy else (h >= m["limit"])
                         elif m["kind"] == "stop":
-                            must = (h >= m["stop"]) if buy else (low <= m["stop"])
+                            # fill-or-kill on the pair's next bar: with two feeds that is the first feed's bar
+                            h1, low1 = self.barmap[(pname, when)][1], self.barmap[(pname, when)][2]
+                            must = (h1 >= m["stop"]) if buy else (low1 <= m["stop"])
                         if must is None:
                             continue
                         self.stats["completeness_checks"] += 1
